@@ -246,8 +246,13 @@ def extract_iter(
         else:
             # Only inserting new items into the stack trace; next_inner
             # (if there is one) is already at the front of `to_unwrap`,
-            # and stays there at its own depth, so don't add it again
+            # and stays there at its own depth, so don't add it again.
+            # The inserted items form a sub-stack of their own: a frame
+            # within them that prunes or replaces its callees must not
+            # affect next_inner or anything after it. Ensure that by
+            # inserting them at a greater depth than everything that follows.
             items = items[:-1]
+            depth = 1 + max([depth] + [entry[2] for entry in to_unwrap])
         for item in reversed(items):
             to_unwrap.appendleft((better_origin(item, None), item, depth))
 
